@@ -28,6 +28,7 @@ package main
 
 import (
 	"context"
+	"regexp"
 	"crypto"
 	"crypto/ecdsa"
 	"crypto/elliptic"
@@ -1089,8 +1090,8 @@ func (r *c08Run) checkAccessToken(kind, tok string, j seenJWT, cf c08Cfg, sub st
 	}
 }
 
-var c08FormAction = formAction
-var c08FormInput = formInput
+var c08FormAction = regexp.MustCompile(`action="([^"]*)"`)
+var c08FormInput = regexp.MustCompile(`name="([^"]*)" value="([^"]*)"`)
 
 // flow runs one configuration end to end and returns the Coq cases describing what was seen
 func (r *c08Run) flow(cf c08Cfg) {
